@@ -644,7 +644,8 @@ impl Property for C09 {
                 env.files.retain(|(n, _)| *n != format!("{name}.tex"));
                 env.files.push((format!("{name}.tex"), content.into_bytes()));
                 let user = if rng.chance(1, 2) {
-                    format!("\\input {name} ")
+                    // with a blank after the name, or with the name ended by the end of the line
+                    format!("\\input {name}{}", if rng.chance(2, 3) { " " } else { "" })
                 } else {
                     format!("\\openin5={name} \\read5 to\\xa \\xa \\read5 to\\xa \\xa ")
                 };
@@ -712,6 +713,33 @@ impl Property for C09 {
                         }
                     }
                 }
+            }
+        }
+        // Environment event (one run in eight): a file is read, replaced between two lines by a
+        // different one (longer, shorter, empty, more lines, other characters), and read again by
+        // the same VM - what an interactive session does when a file is edited and \\input again.
+        if rng.chance(1, 8) {
+            let contents = [
+                "alpha\n", "alpha beta gamma delta epsilon\nsecond line\n", "", "\\def\\xv{1}\n", "\\def\\xv{2}\n\\def\\xw{2026-09-26}\n",
+                "x", "\u{e9}\u{e9}\u{1d518}\n", "{\n", "}\n\\undefinedcs\n", "a\nb\nc\nd\ne\nf\ng\nh\ni\nj\n", "\\count1=x\n", "%\n",
+            ];
+            let users = [
+                "\\input zr ", "\\openin5=zr \\read5 to\\xa \\xa \\closein5 ", "\\openin6=zr \\read6 to\\xa \\read6 to\\xb \\xa\\xb ", "\\input zr",
+                "\\input zr \\undefinedcs ",
+            ];
+            let a = contents[rng.below(contents.len())];
+            env.files.retain(|(n, _)| n != "zr.tex");
+            env.files.push(("zr.tex".to_string(), a.as_bytes().to_vec()));
+            let reads = 2 + rng.below(3);
+            let mut at = 1 + rng.below(out.len());
+            for k in 0..reads {
+                out.insert(at.min(out.len()), users[rng.below(users.len())].to_string());
+                if k > 0 && (k == 1 || rng.chance(1, 2)) {
+                    let b = contents[rng.below(contents.len())];
+                    env.file_updates.push((at.min(out.len() - 1), "zr.tex".to_string(), b.as_bytes().to_vec()));
+                    damage.push(format!("file zr.tex replaced before line {}", at.min(out.len() - 1)));
+                }
+                at += 1 + rng.below(3);
             }
         }
         // Avoid rules for listed findings (exactly the documented trigger, nothing else).
@@ -851,7 +879,16 @@ impl Property for C09 {
             let mut s = 0;
             while s < n {
                 let mut c = case.clone();
-                c.lines.drain(s..(s + chunk).min(n));
+                let e = (s + chunk).min(n);
+                c.lines.drain(s..e);
+                // file replacements keep their place relative to the lines that remain
+                for u in c.env.file_updates.iter_mut() {
+                    if u.0 >= e {
+                        u.0 -= e - s;
+                    } else if u.0 > s {
+                        u.0 = s;
+                    }
+                }
                 if !c.lines.is_empty() {
                     out.push(c);
                 }
@@ -865,6 +902,11 @@ impl Property for C09 {
         for i in 0..case.env.files.len() {
             let mut c = case.clone();
             c.env.files.remove(i);
+            out.push(c);
+        }
+        for i in 0..case.env.file_updates.len() {
+            let mut c = case.clone();
+            c.env.file_updates.remove(i);
             out.push(c);
         }
         if !case.env.terminal.is_empty() {
